@@ -22,19 +22,19 @@ func (h *hashSet) Len() int { return len(h.m) }
 type replayRef struct{ class, path string }
 
 type evidence struct {
-	id         string
-	opt        Options
-	evals      int
-	nontrivial hashSet
-	byVerdict  map[Verdict]int
-	feat       map[string]int64
-	cells      map[string]int
-	samples    []any
-	extra      map[string]any
-	replays    []replayRef
-	violations int
-	wall       float64
-	n          int
+	id           string
+	opt          Options
+	evals        int
+	nontrivial   hashSet
+	byVerdict    map[Verdict]int
+	feat         map[string]int64
+	cells        map[string]int
+	samples      []any
+	extra        map[string]any
+	replays      []replayRef
+	violations   int
+	wall         float64
+	n            int
 	enumDistinct int
 }
 
